@@ -327,7 +327,7 @@ def register_dispatcher_contracts(spec, sort):
                 "event_name in old(self._events) and "
                 "rm(wref(cb_recv(c)), cb_m(c)) in old(self._events)[event_name])")
     C(q + 'dispatch', params=dict(self=S, event_name=Str, args=ArgPack, kwargs=KwPack),
-      props=['C03', 'C04', 'C10'], requires=wf,
+      props=['C02', 'C03', 'C04', 'C10'], requires=wf,
       modifies=['ghost:log', 'ghost:cnt'], open_effect=True,
       log_invocation=('dlog', 'qe(event_name, args, kwargs)'),
       ensures={
@@ -380,7 +380,7 @@ def register_dispatcher_contracts(spec, sort):
         "len(self._event_queue) >= len(old(self._event_queue)) - k and "
         "all(self._event_queue[j] == old(self._event_queue)[k + j] "
         "for j in range(len(old(self._event_queue)) - k))")
-    C(q + 'dispatch_enabled.setter', params=dict(self=S, value=TBool), props=['C04', 'C10'],
+    C(q + 'dispatch_enabled.setter', params=dict(self=S, value=TBool), props=['C02', 'C04', 'C10'],
       requires=wf, modifies=['ghost:log', 'ghost:cnt', 'ghost:dlog'], open_effect=True,
       ghost_results={'k': TInt},
       ensures={
